@@ -396,6 +396,67 @@ def quote(s):
     return "".join(out)
 
 
+# --------------------------------------------------------------------------- replay
+
+def generic_replay(path):
+    """./check <ID> --replay <file>: re-runs the recorded case against the CURRENT /repo and the current model and
+    prints both sides; exit 1 if the recorded discrepancy is still there, 0 if it is gone."""
+    import progcheck as PC
+    r = json.load(open(path))
+    rep = r.get("replay", {}) if isinstance(r.get("replay"), dict) else {}
+    print("property:", r.get("property"), "|", r.get("what", "")[:300])
+    with BuildLock():
+        build_coq(); build_ocaml(); build_harness()
+    if "program" in rep:
+        src = rep["program"]
+        given = rep.get("inputs_per_param")
+        job = f"(program q0 (src {quote(src)})" + (f" (given {given})" if given else " (rand 8) (seed 1)") + ")"
+        rs = run_jobs(GVRUN, [job], "replay.rs", timeout_per_job=20.0)
+        out = rs.get("q0", "(no-result)")
+        print("real compiler:", out[:400])
+        bad = False
+        if out.startswith("(compile ok)"):
+            forms = PC.split_top(out)
+            ast, inss, runs = PC.field(forms, "ast"), PC.field(forms, "inss"), PC.field(forms, "runs")
+            ml = run_jobs(MODELRUN, [f"(sem s0 {ast} {inss})", f"(tsem t0 {ast} {inss})"], "replay.ml", timeout_per_job=20.0)
+            sem = PC.split_top(ml.get("s0", ""))
+            sem = sem[1:] if sem and sem[0].startswith("(wt ") else sem
+            tsem = PC.split_top(ml.get("t0", ""))
+            print("source semantics (Sem.v):     ", " ".join(sem)[:400])
+            print("bit-level semantics (TSem.v): ", " ".join(tsem)[:400])
+            for cfg in PC.split_top(runs[len("(runs "):-1]):
+                print("circuit", cfg[:400])
+                res = PC.split_top(cfg[cfg.index(" ") + 1:-1]) if " " in cfg else []
+                for k, x in enumerate(res):
+                    if k < len(tsem) and tsem[k].startswith(("(ok ", "(panic ")) and tsem[k] != x:
+                        bad = True
+                    if k < len(sem) and PC.classify(sem[k], x) not in (None, "outside-model"):
+                        bad = True
+            if rep.get("expected") and rep.get("expected") not in out:
+                bad = True
+            import lowertie
+            t = lowertie.run_tie("replay", [("replay", src)])[0]
+            print("structural tie (Compile/Lower.v vs compile.rs):", t["status"], t.get("detail", "")[:300] if t["status"] != "equal" else "")
+            if t["status"] in ("differs", "model-failed"):
+                bad = True
+        else:
+            bad = "crash" in out or "abort" in out or "timeout" in out or "accepted" in r.get("what", "")
+        print("REPRODUCED" if bad else "not reproduced on the current tree")
+        return 1 if bad else 0
+    if "job" in rep:
+        job = rep["job"]
+        rs = run_jobs(GVRUN, [job], "replay.rs", timeout_per_job=30.0)
+        ml = run_jobs(MODELRUN, [job], "replay.ml", timeout_per_job=30.0)
+        a, b = rs.get(job_id(job), "(no-result)"), ml.get(job_id(job), "(no-result)")
+        print("real code:", a[:1500]); print("model:    ", b[:1500])
+        a2 = re.sub(r"\s*\(truth .*\)$", "", a)
+        print("REPRODUCED (model and code differ)" if a2 != b else "model and code agree on this job now")
+        return 1 if a2 != b else 0
+    print(json.dumps(rep, indent=1)[:3000])
+    print("this replay file has no automatic replay; see its fields above")
+    return 1
+
+
 # --------------------------------------------------------------------------- findings / evidence
 
 def load_known():
